@@ -8,14 +8,14 @@ import tempfile
 import time
 
 from . import findings, hist_run, orchestrator, util
-from .main import NWORKERS, REAL_STUB, budget_for, merge_counters, write_evidence
+from .main import NWORKERS, REAL_STUB, budget_for, merge_counters, replay_dir, write_evidence
 
 VERIF = orchestrator.VERIF
 
 
 def _argv(pid, phase, seed, tier, w, budget, scratch, info, runs=None, extra=()):
     a = [pid, phase, "--seed", seed, "--tier", tier, "--worker", w, "--nworkers", NWORKERS,
-         "--budget", budget, "--scratch", scratch, "--outdir", os.path.join(VERIF, "replays"),
+         "--budget", budget, "--scratch", scratch, "--outdir", replay_dir(),
          "--info", json.dumps(info)] + list(extra)
     if runs is not None:
         a += ["--runs", runs]
